@@ -32,7 +32,7 @@ ASSUMPTIONS = [
     "held means: held on the executions listed in coverage",
 ]
 USES = ("complete-list", "complete-callback", "complete-generator", "partial-suspended", "partial-closed", "partial-collected", "never-started",
-        "complete-generator-second-created-first")
+        "complete-generator-second-created-first", "partial-closed-during-second-use")
 
 
 def first_use(tk, v1, kind, use, j):
@@ -88,6 +88,22 @@ def check_pair(ctx, v1, v2, params, kind, use, j, fresh_cache=None):
                 pass
             keep = None
             second = [(t[1], t[2]) for t in g2]
+        elif use == "partial-closed-during-second-use":
+            # the abandoned generator of the earlier use is finalised (closed / collected) while the second run is paused between tokens
+            frames1, _ = tok.FRAME_KINDS[kind](v1)
+            g1 = tk.tokenize(tok.CountingSource(frames1), generator=True)
+            for _ in range(j):
+                try:
+                    next(g1)
+                except StopIteration:
+                    break
+            second = []
+            for t in tk.tokenize(tok.CountingSource(frames2), generator=True):
+                second.append((t[1], t[2]))
+                if g1 is not None:
+                    g1.close()
+                    g1 = None
+            keep = None
         else:
             keep = first_use(tk, v1, kind, use, j)
             second = tok.spans(tok.deliver(tk, tok.CountingSource(frames2), ("list", "generator", "callback")[len(v1) % 3]))
